@@ -556,8 +556,6 @@ def judge_case(spec, rec):
             i = cands[0][4]
             key = classify_grade(got, want, i['cred'], i['tot'], i['surplus'], i['ne'], i['ns'], levels[0]['pc'],
                                  i['positional'], levels[0]['ordered'])
-            if len(spec['answers']) > 1 or len(spec['answers'][0]['lists']) > 1:
-                key = 'grade/formula' if key == 'grade/formula' else key
         else:
             key = 'nested/' + key
         raise Violation(key, 'grade %r, formula gives %r for input %r' % (got, want, text), result=val)
@@ -889,6 +887,6 @@ def strat_nested(tier):
 PARTS = [
     Part('grid', 'enum', judge_grid, items=items_grid, exhaustive=True),
     Part('grid_errors', 'enum', judge_grid_errors, items=items_grid_errors, exhaustive=True),
-    Part('flat', 'hyp', judge_case, strategy=strat_flat, budget={'quick': 5000, 'thorough': 120000}),
-    Part('nested', 'hyp', judge_case, strategy=strat_nested, budget={'quick': 2400, 'thorough': 60000}),
+    Part('flat', 'hyp', judge_case, strategy=strat_flat, budget={'quick': 5000, 'thorough': 180000}),
+    Part('nested', 'hyp', judge_case, strategy=strat_nested, budget={'quick': 2400, 'thorough': 80000}),
 ]
